@@ -142,6 +142,8 @@ class Prop(object):
         for alg in ('rsa2048a', 'dsa1024', 'ecdsa_p256a', 'ed25519a', 'cv25519a', 'ecdh_p256a', 'elgamal'):
             u.append(('foreign', {'key': alg}))
         u.append(('foreign-subkeys', {}))
+        for ks in ('eddsa', 'ecdsa'):
+            u.append(('hashfault', {'keyset': ks}))
         u.append(('gpg', {}))
         depth = 3 if tier == 'quick' else 4
         for ks in ('eddsa+ecdh', 'rsa+subs') if tier == 'quick' else ('eddsa+ecdh', 'rsa+subs', 'dsa', 'ecdsa+ecdh'):
@@ -179,6 +181,72 @@ class Prop(object):
             if bytes(d.message) != b'decrypt me':
                 probs.append('decryption while unlocked returned other content')
         return probs
+
+    def c_hashfault(self, case):
+        """One deviation of the environment while a protected key is unlocked: the k-th digest PGPy asks for is refused (every k), or every SHA-1 is -
+        on the untouched protected key and on the key with each octet of its encrypted secret part changed.  Unlocking may fail; a key that reports
+        unlocked works with the original secret integers (it never goes on with material whose checksum it could not verify)."""
+        import pgpy
+        from pgpy.constants import SymmetricKeyAlgorithm, HashAlgorithm
+        from mc.faults import HashFaults
+        from mc import recips as R
+        R.set_s2k_count(0)
+        r = Res()
+        ks = case['keyset']
+        key, raws = build(ks)
+        key.protect('hash fault pw', SymmetricKeyAlgorithm.AES256, HashAlgorithm.SHA256)
+        exp = bytes(key)
+        pk = wire.read_packets(exp)
+        body = pk[0]['body']
+        nsecret = len(rkeys.secret_mpis(raws[0])) + 20
+        variants = [('untouched', exp)]
+        for i in range(len(body) - nsecret, len(body)):
+            b = bytearray(body)
+            b[i] ^= 0x01
+            variants.append(('octet %d of the encrypted secret part changed' % (i - (len(body) - nsecret)), wire.packet(5, b) + b''.join(p['raw'] for p in pk[1:])))
+        only = case.get('only')
+        ncalls = set()
+
+        def attempt(blob, fault):
+            """-> 'error' | 'unlocked-right' | 'unlocked-wrong: why'"""
+            k = pgpy.PGPKey.from_blob(blob)[0]
+            cm = k.unlock('hash fault pw')
+            try:
+                with fault:
+                    cm.__enter__()
+            except Exception:
+                return 'error'
+            try:
+                try:
+                    probs = self._sign_and_check(k, raws[:1], r)
+                except Exception as e:
+                    probs = ['using the key raised %r' % (e,)]
+                return 'unlocked-right' if not probs else 'unlocked-wrong: ' + probs[0]
+            finally:
+                try:
+                    cm.__exit__(None, None, None)
+                except Exception:
+                    pass
+        for vname, vb in variants:
+            probe = HashFaults()
+            attempt(vb, probe)
+            ncalls.add(len(probe.calls))
+            faults = [('no fault', dict())] + [('digest request #%d (%s) refused' % (k + 1, probe.calls[k]), dict(fail_at=k)) for k in range(len(probe.calls))]
+            faults += [('every %s refused' % nm, dict(fail_name=nm)) for nm in sorted(set(probe.calls))]
+            for fname, fkw in faults:
+                name = '%s / %s' % (vname, fname)
+                if only and name != only:
+                    continue
+                r.states += 1
+                r.transitions += 1
+                oc = attempt(vb, HashFaults(**fkw))
+                r.outcomes['hashfault:' + oc.split(':')[0]] += 1
+                if oc.startswith('unlocked-wrong') or (oc == 'error' and vname == 'untouched' and fname == 'no fault'):
+                    r.viol('hashfault', {'kind': 'unlocked-unchecked-material' if oc != 'error' else 'base', 'fault': fname.split(' (')[0].split(' #')[0]}, dict(case, only=name),
+                           '%s key, %s: %s' % (ks, name, 'the key reports unlocked but does not work with the original secret integers (%s)' % oc if oc != 'error' else 'the untouched key does not unlock'))
+        r.dim('keyset', ks)
+        r.samples.append({'digest_requests_per_unlock': sorted(ncalls), 'variants': len(variants)})
+        return r
 
     def _locked_invariant(self, key, raws, needles, ints):
         probs = []
